@@ -27,6 +27,9 @@ type c07Case struct {
 	Mins     []int `json:"mins,omitempty"`
 	BeginMin int   `json:"beginmin,omitempty"`
 	EndMin   int   `json:"endmin,omitempty"`
+	// Split: where the bounds go for the commands that define -b/-e themselves: 0 both global, 1 end after the command,
+	// 2 begin after the command, 3 both after the command
+	Split int `json:"split,omitempty"`
 }
 
 const c07ClockLayout = "2006/01/02 15:04"
@@ -108,7 +111,26 @@ func checkC07(c c07Case, ctx *vCtx) *vFailure {
 		return s
 	}
 	run := func(args ...string) vRun {
-		all := append(append([]string{"--no-color"}, period...), fileArgs(args...)...)
+		glob, own := period, []string(nil)
+		// the commands that define -b/-e themselves may get one bound (or both) after the command word: the period is the
+		// same one, wherever its two ends are written
+		nw := 1
+		if len(args) > 1 && args[0] == "csv" {
+			nw = 2
+		}
+		if c.Split > 0 && (args[0] == "reg" || args[0] == "bal" || args[0] == "print" || (args[0] == "csv" && len(args) > 1 && args[1] == "log")) {
+			glob = nil
+			for i := 0; i+1 < len(period); i += 2 {
+				toOwn := c.Split == 3 || (c.Split == 1 && period[i] == "-e") || (c.Split == 2 && period[i] == "-b")
+				if toOwn {
+					own = append(own, period[i], period[i+1])
+				} else {
+					glob = append(glob, period[i], period[i+1])
+				}
+			}
+			args = append(append(append([]string{}, args[:nw]...), own...), args[nw:]...)
+		}
+		all := append(append([]string{"--no-color"}, glob...), fileArgs(args...)...)
 		r := vRunApp(vInvocation{Args: all})
 		ctx.Run(1)
 		if r.Failed {
@@ -549,6 +571,7 @@ func genC07(t *rapid.T) c07Case {
 			c.End = rapid.IntRange(0, 7).Draw(t, "e")
 		}
 	}
+	c.Split = rapid.IntRange(0, 3).Draw(t, "split")
 	if rapid.IntRange(0, 4).Draw(t, "clock") == 0 {
 		// a date format with a clock component: several records of one calendar day at different times, bounds inside a day
 		minute := func(label string) int {
